@@ -272,15 +272,22 @@ def run_inspect(path, arch, lines=None, fixed=False):
         args.file.close()
     if "kernel" not in _Cap.last or "cp" not in _Cap.last:
         raise RuntimeError("harness: monitors saw no full_analysis / get_critical_path call")
-    return snapshot(_Cap.last["kernel"], _Cap.last["graph"], _Cap.last["cp"], _Cap.last["cp_lat"])
+    return snapshot(_Cap.last["kernel"], _Cap.last["graph"], _Cap.last["cp"], _Cap.last["cp_lat"], report=out.getvalue())
 
 
 def rnd(x):
     return None if x is None else round(float(x), 9)
 
 
-def snapshot(kernel, graph, cp, cp_lat):
+def snapshot(kernel, graph, cp, cp_lat, report=None):
     ins = [f for f in kernel if f.mnemonic is not None]
+    lcd_cells = None
+    if report is not None:
+        from .. import report_parse
+
+        rep = report_parse.parse_report(report)
+        if not rep["problems"] and not any(row["problems"] for row in rep["rows"]):
+            lcd_cells = {row["line_number"]: row["lcd"] for row in rep["rows"]}
     idx = {f.line_number: i for i, f in enumerate(ins)}
     cpl = dict(zip(cp, cp_lat))
     per = []
@@ -293,6 +300,9 @@ def snapshot(kernel, graph, cp, cp_lat):
             "latency_wo_load": rnd(f.latency_wo_load),
             "flags": sorted(set(f.flags)),
             "cp": rnd(cpl[f.line_number]) if f.line_number in cpl else None,
+            # LCD column of the text report (which of several equally long dependencies is shown must not depend on where
+            # the kernel sits in the file)
+            "lcd_cell": lcd_cells.get(f.line_number, "") if lcd_cells is not None else None,
         })
     non = [f for f in kernel if f.mnemonic is None]
     non_dirty = [f.line_number for f in non if any(float(p) != 0.0 for p in f.port_pressure) or f.latency or f.throughput
@@ -322,6 +332,8 @@ def compare(a, b):
     if a["summary"]["cp_total"] == 0.0 and b["summary"]["cp_total"] == 0.0:
         # degenerate: no instruction has a latency; which zero-latency line is called "the path" is DON'T-CARE
         fields.remove("cp")
+    if all(x["lcd_cell"] is not None for x in a["per"] + b["per"]):
+        fields.append("lcd_cell")
     for i, (x, y) in enumerate(zip(a["per"], b["per"])):
         for f in fields:
             if x[f] != y[f]:
@@ -513,8 +525,27 @@ def check_lines(c, R, workdir=None, e2e=False, r=None):
                     "--lines %s: inspect() analysed lines %s, named (non-blank) lines %s" % (c["s"], snap["lines"][:40], exp[:40]), c)
 
 
-def meta_case(path, arch, seed, fixed):
-    return {"kind": "meta", "path": path, "arch": arch, "noise_seed": seed, "fixed": fixed}
+def meta_case(path, arch, seed, fixed, text=None):
+    c = {"kind": "meta", "path": path, "arch": arch, "noise_seed": seed, "fixed": fixed}
+    if text is not None:
+        c["text"] = text  # generated file: (re-)created before the run
+    return c
+
+
+TWO_ACC = {
+    "x86": [".L2:", "\tvaddpd\t(%rsi,%rax), %ymm0, %ymm0", "\tvaddpd\t32(%rsi,%rax), %ymm1, %ymm1", "\taddq\t$64, %rax",
+            "\tcmpq\t%rdx, %rax", "\tjne\t.L2"],
+    "aarch64": [".L2:", "\tfadd\tv0.2d, v0.2d, v2.2d", "\tfadd\tv1.2d, v1.2d, v3.2d", "\tadd\tx0, x0, #32", "\tcmp\tx0, x1", "\tbne\t.L2"],
+}
+
+
+def two_accumulator_file(isa, r):
+    """A marked loop with two equally long loop-carried dependencies whose first lines straddle a change in the number of digits
+    of the line number (9/10, 99/100) or not."""
+    first = r.choice([9, 99, 9, 99, 8, 12, 100])  # file line of the first accumulator
+    c = "#" if isa == "x86" else "//"
+    pro = ["%s line %d" % (c, i + 1) for i in range(first - 3)]
+    return "\n".join(pro + ["%s OSACA-BEGIN" % c] + TWO_ACC[isa] + ["%s OSACA-END" % c, "\tret"]) + "\n"
 
 
 def check_meta(c, R, workdir):
@@ -523,6 +554,11 @@ def check_meta(c, R, workdir):
 
     isa = isolate.isa_of(c["arch"])
     r = random.Random(c["noise_seed"])
+    if c.get("text") is not None:
+        c = dict(c, path=os.path.join(workdir, os.path.basename(c["path"])))
+        with open(c["path"], "w") as f:
+            f.write(c["text"])
+        R.count("meta_generated_two_accumulator_files")
     with open(c["path"]) as f:
         text = f.read()
     flines = text.split("\n")
@@ -688,6 +724,7 @@ def floors(tier):
         "monitor:inspect_selection": 20 if q else 300,
         "monitor:inspect_lines": 10 if q else 150,
         "inspect_marked_integer_only_x86": 5 if q else 60,
+        "meta_generated_two_accumulator_files": 10 if q else 40,
         "monitor:inspect_variants": 80 if q else 1000,
         "monitor:full_analysis": 80 if q else 1000,
         "monitor:get_critical_path": 80 if q else 1000,
@@ -746,6 +783,10 @@ def run_shard(spec, R):
                 todo.append((r.choice(marked_corpus(isa)), r.choice(QUICK_MODELS[isa])))
         for f, a in todo:
             check_meta(meta_case(f, a, r.randrange(1 << 30), r.random() < 0.4), R, work)
+        for k in range(2):
+            isa = "x86" if (k + spec["shard"]) % 2 == 0 else "aarch64"
+            check_meta(meta_case("twoacc-%d-%d.s" % (spec["shard"], k), r.choice(QUICK_MODELS[isa]), r.randrange(1 << 30), r.random() < 0.4,
+                                 text=two_accumulator_file(isa, r)), R, work)
     finally:
         subprocess.run(["rm", "-rf", work])
 
